@@ -666,6 +666,9 @@ reprocess:
 		case 's':
 			{
 			char *arg_string;
+			if (location + 1 > max_len) {
+				return max_len;
+			}
 			arg_string = va_arg(ap, char *);
 			if (arg_string == NULL) {
 				location += my_strlcpy(&serialize[location],
